@@ -291,7 +291,7 @@ func randBatchCfg(r *rng, allowWide bool) BatchCfg {
 	c := BatchCfg{Budget: 1 + r.intn(3), Wait: 0, Fb: r.pick([]string{"pass", "pass", "custom"}),
 		ExecS: r.pick([]string{"res", "res", "any"}), HasPost: !r.chance(8),
 		Shape: r.pick([]string{"results", "results", "anys", "typed", "single", "nil"}),
-		Build: r.pick([]string{"option", "builder"})}
+		Build: r.pick([]string{"option", "builder", "bare"})}
 	switch r.intn(4) {
 	case 0, 1:
 		c.Conc = 0
